@@ -601,3 +601,62 @@ func rejectCases() (where, query []Replay) {
 	}
 	return where, query
 }
+
+// relCases: ts conditions whose literal depends on the clock. Every literal form of parseLqlDateTime that is not an
+// absolute date: relative -<number>(m|h|d) (case-insensitive, blanks trimmed, fractions) and the constants
+// minute / hour / day / week. The events are dated relative to the instant the literal denotes when the case runs
+// (RelEv.Off, at least a minute away), so the expected answers do not depend on the moment of the run.
+var relLiterals = []string{"-90m", "-1.5h", "-2d", "-0.5D", " -3H ", "-1m", "-0.25h", "minute", "hour", "DAY", "week", " Hour "}
+
+func relCases() []Replay {
+	const min = int64(60 * 1000000000)
+	offs := []int64{-48 * 60 * min, -2 * 60 * min, -5 * min, -min, min, 5 * min, 2 * 60 * min}
+	evsFor := func(lit int) []RelEv {
+		var evs []RelEv
+		for k, o := range offs {
+			evs = append(evs, RelEv{Lit: lit, Off: o, Msg: fmt.Sprintf("m%d %s", k, []string{"alpha", "beta"}[k%2])})
+		}
+		return evs
+	}
+	var out []Replay
+	ops := []string{"<", ">", "<=", ">="}
+	for i, lit := range relLiterals {
+		for j, op := range ops {
+			text := fmt.Sprintf("ts %s %q", op, lit)
+			switch (i + j) % 4 {
+			case 1:
+				text = fmt.Sprintf("NOT ts %s %q AND msg contains \"alpha\"", op, lit)
+			case 2:
+				text = fmt.Sprintf("msg contains \"beta\" OR TS %s '%s'", op, lit)
+			}
+			out = append(out, Replay{Kind: "where", Stream: "reltime", Text: text, RelLits: []string{lit}, RelEvs: evsFor(0)})
+		}
+	}
+	// a window between two clock-dependent instants
+	w := append(evsFor(0), evsFor(1)...)
+	out = append(out, Replay{Kind: "where", Stream: "reltime", Text: `ts > "-2d" AND ts < "-90m"`, RelLits: []string{"-2d", "-90m"}, RelEvs: w})
+	out = append(out, Replay{Kind: "where", Stream: "reltime", Text: `ts >= "week" AND NOT ts > "hour"`, RelLits: []string{"week", "hour"}, RelEvs: w})
+	// a relative literal the parser of the literal must refuse: unknown unit, no number
+	out = append(out, Replay{Kind: "where", Stream: "reltime", Text: `ts > "-5w" OR ts > "-h"`, Events: []Ev{{Ts: 1, Msg: "a"}}})
+	return out
+}
+
+// rpcCases: the store is written through the RPC client; the fields of an event travel as text (name="value",...)
+// and the server builds the field list (field.NewFieldsFromKVString) the WHERE closure reads
+func rpcCases() []Replay {
+	evs := []Ev{
+		{Ts: 10, Msg: "start web #0", Fields: [][2]string{{"host", "h1"}, {"level", "error"}, {"note", "disk full, retry"}}},
+		{Ts: 11, Msg: "get /index #1", Fields: [][2]string{{"level", "info"}, {"host", "h2"}}},
+		{Ts: 12, Msg: "no fields #2"},
+		{Ts: 12, Msg: "quoted #3", Fields: [][2]string{{"note", "say \"hi\" = ok"}, {"host", ""}, {"level", "Error"}}},
+		{Ts: 15, Msg: "dup #4", Fields: [][2]string{{"host", "h1"}, {"host", "h9"}, {"x.y", "level"}}},
+	}
+	var out []Replay
+	for _, q := range []string{`fields:host = h1`, `fields:level = "error" OR fields:level = info`, `lower(fields:level) = error AND NOT fields:host = ""`,
+		`fields:note contains "retry"`, `fields:note LIKE "say*ok"`, `fields:host = ""`, `fields:x.y = level OR fields:nosuch != ""`, `fields:host > h1 AND ts >= 11`} {
+		out = append(out, Replay{Kind: "query", Text: q, Events: evs, Via: "rpc"})
+	}
+	out = append(out, Replay{Kind: "query", Text: `fields:host = h1 OR msg contains "#"`, Events: evs, Via: "rpc", Tail: 2})
+	out = append(out, Replay{Kind: "query", Text: `NOT fields:level = info`, Events: evs, Via: "rpc", Range: []int64{11, 12}})
+	return out
+}
